@@ -21,19 +21,18 @@ theorem bleedbox_cap_not_linear :
 
 def twoPages : Document := ⟨[⟨100, 80, ⟨0, 0, 0, 0⟩, [], [], []⟩, ⟨100, 80, ⟨0, 0, 0, 0⟩, [], [], []⟩], 1, 2, 3, true⟩
 
-def missingHtml (r : Except PyErr PdfOut) : Bool :=
+def unboundLocal (r : Except PyErr PdfOut) : Bool :=
   match r with
-  | .error (.noneAttribute "Document._html") => true
+  | .error (.noneAttribute "UnboundLocalError:pdfua.page_number") => true
   | _ => false
 
-/-- A rendered document (`_html` set) can be written as `pdf/ua-1`; its copy — even `copy('all')` — cannot:
-`Document.copy` builds the new document through the constructor, which does not set `_html`, and `pdfua` reads it
-(`AttributeError`).  (The unrestricted `copy_pages` is therefore false for this variant.) -/
-theorem copy_pdfua_fails :
-    (generatePdf 1 true twoPages).toBool = true ∧
-    missingHtml (generatePdf 1 true (copy twoPages .all)) = true ∧
-    missingHtml (generatePdf 1 true (copy twoPages (.pages (twoPages.pages.take 1)))) = true ∧
-    (generatePdf 1 false (copy twoPages (.pages (twoPages.pages.take 1)))).toBool = true := by
+/-- The empty selection of a rendered document is written without trouble as a plain PDF, but as `pdf/ua-1` it
+fails: `pdfua` enumerates the page streams and then reads the loop variable `page_number`, unbound when there was no
+page (`UnboundLocalError`).  (`generate_pdf` with `pdf/ua-1` is therefore total only for non-empty page lists.) -/
+theorem pdfua_empty_selection_fails :
+    (generatePdf 1 false (copy twoPages (.pages []))).toBool = true ∧
+    unboundLocal (generatePdf 1 true (copy twoPages (.pages []))) = true ∧
+    (generatePdf 1 true (copy twoPages (.pages (twoPages.pages.take 1)))).toBool = true := by
   decide +kernel
 
 section cache
